@@ -818,3 +818,217 @@ theorem C17.legacy_power_casts (s : PSelf) (dt : DType) :
       .err "UFuncTypeError" := by
   refine ⟨by simp [powerLegacy, OutKind.given], by simp [powerLegacy, OutKind.given], by decide⟩
 
+/-! ## Final round: normal forms, invariants and order laws of executed definitions -/
+
+/-- Normal form of the `out` tuple (tensor): a tuple of explicit `None`s (`out=(None,)`,
+`out=(None, None)`) is the same request as no `out` at all — for every element, method,
+NumPy result (also errors) and one or two outputs.  (`x.__array_ufunc__(…, out=(None,))` and
+the legacy wrappers rely on it; enumerated as out patterns `N`/`NN` vs `n`.) -/
+theorem C17.none_outs_tensor (s : TSelf) (m : Method) (nout : Nat) (np : NpRes)
+    (hn : m = .call → nout = 1 ∨ nout = 2) :
+    tensorDispatch s m nout (List.replicate (if m = .call then nout else 1) .none) np =
+      tensorDispatch s m nout [] np := by
+  unfold tensorDispatch
+  cases m
+  · rcases hn rfl with rfl | rfl <;> simp [arityOk, validOutT, OutKind.given, List.replicate]
+  all_goals simp [arityOk, validOutT, OutKind.given, List.replicate]
+
+/-- The same normal form for discretized elements, every method, operands, axis, keepdims. -/
+theorem C17.none_outs_discr (s : DSelf) (m : Method) (nout : Nat) (ins : List InKind)
+    (ps : List DSelf) (ax : Axis) (kd : Bool) (np : NpRes)
+    (hn : m = .call → nout = 1 ∨ nout = 2) :
+    discrDispatch s m nout (List.replicate (if m = .call then nout else 1) .none) ins ps ax kd np =
+      discrDispatch s m nout [] ins ps ax kd np := by
+  unfold discrDispatch
+  cases m
+  · rcases hn rfl with rfl | rfl <;>
+      simp [arityOk, validOutD, unwrapOut, OutKind.given, List.replicate]
+  all_goals simp [arityOk, validOutD, unwrapOut, OutKind.given, List.replicate]
+
+/-- Invariant of the code's `reduced_axes` for EVERY `axis` argument (absent, `None`, any
+integer list, valid or not) and number of dimensions: the kept axes are strictly increasing
+and in range — the result partition lists the remaining axes in their original order, none
+twice. -/
+theorem C17.reducedAxes_sorted (ndim : Nat) (ax : Axis) :
+    (reducedAxes ndim ax).Pairwise (· < ·) ∧ ∀ i ∈ reducedAxes ndim ax, i < ndim := by
+  have hr : (List.range ndim).Pairwise (· < ·) := List.pairwise_lt_range
+  cases ax with
+  | absent =>
+    refine ⟨List.Pairwise.sublist (List.drop_sublist 1 _) hr, fun i hi => ?_⟩
+    exact List.mem_range.mp (List.mem_of_mem_drop hi)
+  | none =>
+    refine ⟨List.Pairwise.sublist (List.drop_sublist 1 _) hr, fun i hi => ?_⟩
+    exact List.mem_range.mp (List.mem_of_mem_drop hi)
+  | ints l =>
+    refine ⟨List.Pairwise.sublist List.filter_sublist hr, fun i hi => ?_⟩
+    exact List.mem_range.mp (List.mem_filter.mp hi).1
+
+example : tensorDispatch ⟨[2, 3], .array .float64 (some 2)⟩ .call 2 [.none, .none]
+      (.ok [.arr [2, 3] .float64, .arr [2, 3] .int32]) =
+    tensorDispatch ⟨[2, 3], .array .float64 (some 2)⟩ .call 2 []
+      (.ok [.arr [2, 3] .float64, .arr [2, 3] .int32]) ∧
+    reducedAxes 4 (.ints [-1, 1, 7]) = [0, 2] := by decide +kernel
+
+theorem C17.keepIdx_sublist {α} (p : Nat → Bool) : ∀ (l : List α) (k : Nat), (keepIdx p l k).Sublist l
+  | [], _ => by simp [keepIdx]
+  | x :: t, k => by
+    unfold keepIdx
+    split
+    · exact (C17.keepIdx_sublist p t (k + 1)).cons_cons x
+    · exact (C17.keepIdx_sublist p t (k + 1)).cons x
+
+theorem C17.keepIdx_true {α} : ∀ (l : List α) (k : Nat), keepIdx (fun _ => true) l k = l
+  | [], _ => by simp [keepIdx]
+  | x :: t, k => by simp [keepIdx, C17.keepIdx_true t (k + 1)]
+
+/-- Laws of NumPy's axis rule `npReduce` (executed by the driver op `npreduce` against the live
+NumPy): whatever the valid `axis` list, the result is a SUBLIST of the input (entries are
+only deleted, never reordered or duplicated), and the empty axis tuple deletes nothing. -/
+theorem C17.npReduce_sublist {α} (l r : List α) (axis : List Int) (h : npReduce l axis = some r) :
+    r.Sublist l ∧ npReduce l [] = some l := by
+  constructor
+  · unfold npReduce at h
+    split at h
+    · split at h
+      · simp only [Option.some.injEq] at h; subst h; exact C17.keepIdx_sublist _ _ _
+      · simp at h
+    · simp at h
+  · simp [npReduce, npPositions, C17.keepIdx_true]
+
+/-- The code side, for EVERY `axis` argument (absent, `None`, any integers): what the
+discretized `reduce` selects from a per-axis list (shape, partition) is a sublist of it — the
+result partition never reorders or repeats axes of the element's partition. -/
+theorem C17.discr_reduce_kept_sublist {α} (l : List α) (d : α) (ax : Axis) :
+    ((reducedAxes l.length ax).map (fun i => l.getD i d)).Sublist l := by
+  have key : ∀ (p : Nat → Bool),
+      (((List.range l.length).filter p).map (fun i => l.getD i d)).Sublist l := by
+    intro p
+    have := C17.keepIdx_eq p d l 0
+    simp only [Nat.sub_zero, ← List.range_eq_range'] at this
+    rw [this]; exact C17.keepIdx_sublist p l 0
+  cases ax with
+  | ints a => exact key _
+  | absent =>
+    have h1 : (List.range l.length).drop 1 = (List.range l.length).filter (fun i => decide (1 ≤ i)) := by
+      cases hl : l.length with
+      | zero => simp
+      | succ n =>
+        rw [List.range_succ_eq_map]
+        simp [List.filter_map, Function.comp_def]
+        congr 1
+        exact (List.filter_eq_self.mpr (fun _ _ => rfl)).symm
+    simp only [reducedAxes, h1]; exact key _
+  | none =>
+    have h1 : (List.range l.length).drop 1 = (List.range l.length).filter (fun i => decide (1 ≤ i)) := by
+      cases hl : l.length with
+      | zero => simp
+      | succ n =>
+        rw [List.range_succ_eq_map]
+        simp [List.filter_map, Function.comp_def]
+        congr 1
+        exact (List.filter_eq_self.mpr (fun _ _ => rfl)).symm
+    simp only [reducedAxes, h1]; exact key _
+
+example : npReduce [2, 3, 4] [-1, 0] = some [3] ∧ npReduce [2, 3, 4] [] = some [2, 3, 4] ∧
+    (reducedAxes 3 (.ints [1, -3])).map (fun i => [2, 3, 4].getD i 0) = [4] := by decide
+
+/-- the 17 dtypes of the model -/
+def OdlModel.C17.allDTypes : List DType :=
+  [.bool, .int8, .int16, .int32, .int64, .uint8, .uint16, .uint32, .uint64, .float16, .float32,
+   .float64, .longdouble, .complex64, .complex128, .clongdouble, .object]
+
+theorem C17.mem_allDTypes (d : DType) : d ∈ allDTypes := by cases d <;> simp [allDTypes]
+
+set_option maxRecDepth 8000 in
+/-- the four laws below, checked by kernel evaluation over all triples of dtypes -/
+theorem C17.canCast_table_laws :
+    (allDTypes.all fun a => a.canCast a) = true ∧
+    (allDTypes.all fun a => allDTypes.all fun b => allDTypes.all fun c =>
+      !(a.canCast b && b.canCast c) || a.canCast c) = true ∧
+    (allDTypes.all fun a => allDTypes.all fun b =>
+      !(a.canCast b && b.canCast a) || a == b) = true ∧
+    (allDTypes.all fun a => allDTypes.all fun b =>
+      !(a.canCast b) || b == .object || castSameKind a b) = true := by
+  decide +kernel
+
+/-- The model's `np.can_cast` (safe rule, the function that decides C17-F4 and is proved equal
+to the live NumPy table) is a partial ORDER on the 17 dtypes — reflexive, transitive,
+antisymmetric — and safe casting implies `same_kind` casting (`castSameKind`, the rule that
+decides whether the legacy two-output product-space wrapper can write into a fresh `out`),
+except into `object`.  So a weight array accepted for a result dtype is accepted for every
+wider dtype (no C17-F4 failure can appear by widening), and a two-output legacy call whose
+result casts safely never raises `UFuncTypeError`. -/
+theorem C17.canCast_partial_order (a b c : DType) :
+    a.canCast a = true ∧ (a.canCast b = true → b.canCast c = true → a.canCast c = true) ∧
+    (a.canCast b = true → b.canCast a = true → a = b) ∧
+    (a.canCast b = true → b ≠ .object → castSameKind a b = true) := by
+  obtain ⟨h1, h2, h3, h4⟩ := C17.canCast_table_laws
+  have ha := C17.mem_allDTypes a; have hb := C17.mem_allDTypes b; have hc := C17.mem_allDTypes c
+  rw [List.all_eq_true] at h1 h2 h3 h4
+  refine ⟨h1 a ha, fun hab hbc => ?_, fun hab hba => ?_, fun hab hno => ?_⟩
+  · have := h2 a ha
+    rw [List.all_eq_true] at this
+    have := this b hb
+    rw [List.all_eq_true] at this
+    have := this c hc
+    simp [hab, hbc] at this
+    exact this
+  · have := h3 a ha
+    rw [List.all_eq_true] at this
+    have := this b hb
+    simp [hab, hba] at this
+    exact this
+  · have := h4 a ha
+    rw [List.all_eq_true] at this
+    have := this b hb
+    simp [hab, hno] at this
+    exact this
+
+example : DType.int8.canCast .float16 = true ∧ DType.float16.canCast .complex64 = true ∧
+    DType.int8.canCast .complex64 = true ∧ castSameKind .int8 .complex64 = true ∧
+    DType.float64.canCast .float32 = false := by decide
+
+/-- Closed form of the legacy product-space interface (`powerLegacy`, executed by the driver op
+`plegacy`) for every power space, `out` tuple and result dtype: the one-output wrappers return
+the given `out`, else wrap a result of the space's shape in the ORIGINAL space and raise for
+another shape; the two-output wrapper succeeds IFF at every position an `out` is given or
+NumPy's result dtype casts (`same_kind`) into the space dtype, and then returns per position
+the given `out` or a fresh element of the original space. -/
+theorem C17.legacy_power_outcome (s : PSelf) (outs : List OutKind) (sh : List Nat) (d1 d2 : DType)
+    (sh1 sh2 : List Nat) :
+    (∀ rule, rule = .mapOrInto ∨ rule = .binary →
+      powerLegacy s rule outs (.ok [.arr sh d1]) =
+        if (outs.getD 0 .none).given then .ok [.given 0]
+        else if sh = s.shape then .ok [.wrapP s.shape s.dt] else .err "ValueError") ∧
+    (powerLegacy s .twoOut outs (.ok [.arr sh1 d1, .arr sh2 d2]) =
+      if ((outs.getD 0 .none).given || castSameKind d1 s.dt) &&
+         ((outs.getD 1 .none).given || castSameKind d2 s.dt) then
+        .ok [if (outs.getD 0 .none).given then .given 0 else .wrapP s.shape s.dt,
+             if (outs.getD 1 .none).given then .given 1 else .wrapP s.shape s.dt]
+      else .err "UFuncTypeError") := by
+  refine ⟨fun rule h => ?_, ?_⟩
+  · rcases h with rfl | rfl <;> simp [powerLegacy]
+  · simp [powerLegacy]
+
+/-- Two-output `__call__` (`modf`, `frexp`, `divmod`) on a discretized element without `out`,
+both NumPy results of the element's shape: BOTH results are discretized elements over the
+same partition, each with ITS OWN NumPy dtype, and the default weighting (the code documents
+that it does not propagate weighting / exponent here) — for every partition, weighting (also
+array and custom), exponent and pair of supported dtypes. -/
+theorem C17.ufunc_result_space_discr_two (part : List Cell) (sdt : DType) (w : Weighting)
+    (ins : List InKind) (ps : List DSelf) (ax : Axis) (kd : Bool) (d1 d2 : DType)
+    (h1 : d1.available = true) (h2 : d2.available = true) :
+    discrDispatch ⟨part, sdt, w⟩ .call 2 [] ins ps ax kd
+        (.ok [.arr (part.map (·.n)) d1, .arr (part.map (·.n)) d2]) =
+      .ok [.wrapD (part.map (·.n)) d1 Weighting.default part,
+           .wrapD (part.map (·.n)) d2 Weighting.default part] := by
+  unfold discrDispatch tensorDispatch
+  simp [arityOk, validOutT, validOutD, unwrapOut, OutKind.given, bindOutcome, out2,
+    wrapCall, ctorT, DSelf.toT, DSelf.shape, rewrapSame, h1, h2]
+
+example : discrDispatch ⟨[⟨0, 1, 2, .uniform (1/2)⟩], .float32, .array .float64 (some 1)⟩ .call 2 []
+      [.own] [] .absent false (.ok [.arr [2] .float32, .arr [2] .int32]) =
+    .ok [.wrapD [2] .float32 Weighting.default [⟨0, 1, 2, .uniform (1/2)⟩],
+         .wrapD [2] .int32 Weighting.default [⟨0, 1, 2, .uniform (1/2)⟩]] ∧
+    powerLegacy ⟨[2, 3], .int64⟩ .twoOut [.own, .none] (.ok [.arr [2, 3] .float64, .arr [2, 3] .int32]) =
+      .ok [.given 0, .wrapP [2, 3] .int64] := by decide +kernel
